@@ -941,6 +941,166 @@ def run_batch_job(job):
     return {"rows": _sha(canon), "n": len(rows), "iterations_equal": iter_equal}
 
 
+USERCODE_VARIANTS = ("ctor-raise", "step-raise", "churn-self", "user-hash-eq", "remove-other-in-activation")
+# forced collector regimes (deterministic: none of them depends on the real allocation history of the process)
+GC_REGIMES = ("default", "gc disabled throughout (one gc.collect() at the end)", "gc.collect() before every model step",
+              "gc.collect() inside every agent step")
+
+
+def run_usercode_job(job):
+    """USER CODE in the loop (implementation + oracle only): models whose agents sit in reference cycles and whose
+    constructors / steps raise and are caught, create and remove agents during activations, define value-based __eq__ / __hash__.
+    The same seeded model is run under five garbage-collector regimes in this process; a seeded run must not depend on when the
+    collector runs.  -> per-step digests of the first regime, and the first regime / step that differs from it."""
+    import gc
+    import warnings
+
+    import mesa
+
+    variant, seed, steps = job["variant"], job["seed"], job["steps"]
+
+    class UA(mesa.Agent):
+        def __init__(self, model, wealth=1):
+            super().__init__(model)
+            self.wealth = wealth
+            self.strategy = self.cautious          # a bound method of itself: a reference cycle, as ordinary as it gets
+            self.partner = None
+            if variant == "ctor-raise" and wealth < 0:
+                raise ValueError("negative wealth")  # validation at the END of the user's __init__
+
+        def cautious(self, other):
+            return 1 if self.wealth > other.wealth else 0
+
+        def remove(self):                              # an override that extends the hook
+            self.wealth = 0
+            super().remove()
+
+        if variant == "user-hash-eq":
+            def __eq__(self, other):
+                return isinstance(other, UA) and self.unique_id == other.unique_id
+
+            def __hash__(self):
+                return hash(("UA", self.unique_id))
+
+        def step(self):
+            m = self.model
+            if m._collect_in_step:
+                gc.collect()                          # user code may run the collector whenever it likes
+            other = self.random.choice(m.agents)
+            gift = self.strategy(other)
+            self.wealth -= gift
+            other.wealth += gift
+            if variant in ("churn-self", "user-hash-eq", "step-raise"):
+                other.partner = self                  # a partner that refers back: a two-object cycle
+            m._log.append(self.unique_id)
+            r = self.random.random()
+            if variant == "step-raise" and r < 0.08:
+                raise self.random.choice([StopIteration, KeyError, IndexError, AttributeError, TypeError, ValueError])("user code")
+            if variant == "churn-self":
+                if r < 0.10:
+                    UA(m, self.random.randint(1, 9))  # creates an agent during the activation
+                elif r < 0.18 and len(m.agents) > 4:
+                    self.remove()                      # removes itself during the activation
+            if variant == "remove-other-in-activation":
+                if r < 0.10:
+                    UA(m, 2)
+                elif r < 0.22 and len(m.agents) > 4:
+                    victims = [a for a in m.agents if a is not self]
+                    self.random.choice(victims).remove()
+
+    class UB(UA):
+        """a docstring-only subclass"""
+
+    class UM(mesa.Model):
+        def __init__(self, seed=None):
+            self._log = []
+            super().__init__(seed=seed)
+            self._collect_in_step = COLLECT[0]
+            UA.create_agents(self, 6, [self.random.randint(1, 9) for _ in range(6)])
+            if variant == "ctor-raise":
+                for bad in ([4, 7, -3, 5, 2], [-1], [3, -2]):
+                    try:
+                        UA.create_agents(self, len(bad), bad)
+                    except ValueError:
+                        pass                          # bad input data: keep the agents we have
+                try:
+                    UA(self, -5)
+                except ValueError:
+                    pass
+            UA.create_agents(self, 5, 3)
+
+        # overridden public hooks that call super() (user subclasses as the library intends them)
+        def register_agent(self, agent):
+            super().register_agent(agent)
+            self._log.append(-agent.unique_id)
+
+        def deregister_agent(self, agent):
+            self._log.append(-1000 - agent.unique_id)
+            super().deregister_agent(agent)
+
+        def step(self):
+            try:
+                k = self.steps % 4
+                if k == 0:
+                    self.agents.shuffle_do("step")
+                elif k == 1:
+                    self.agents.shuffle().do("step")
+                elif k == 2:
+                    self.agents.shuffle(inplace=True).map("step")
+                else:
+                    self.agents.groupby(lambda a: a.wealth % 2).do(lambda g: g.shuffle_do("step"))
+            except (StopIteration, KeyError, IndexError, AttributeError, TypeError, ValueError) as e:
+                self._log.append(type(e).__name__)     # the caller catches it and carries on
+
+    COLLECT = [False]
+
+    def one(regime):
+        keep = None
+        old = gc.get_threshold()
+        COLLECT[0] = regime == 3
+        try:
+            if regime == 1:
+                gc.disable()
+            with warnings.catch_warnings():
+                warnings.simplefilter("ignore")
+                m = UM(seed=seed)
+                out = []
+                s0 = snapshot(m)
+                s0["log"] = list(m._log)
+                out.append(_digest(s0))
+                for _ in range(steps):
+                    if regime == 2:
+                        gc.collect()
+                    m.step()
+                    sn = snapshot(m)
+                    sn["log"] = list(m._log[-60:])
+                    out.append(_digest(sn))
+            return out, [a.unique_id for a in m.agents], len(m._log)
+        finally:
+            gc.enable()
+            gc.set_threshold(*old)
+            gc.collect()
+            del keep
+
+    g0 = _global_state()
+    gc.collect()
+    gc.freeze()          # everything that exists so far is left alone: the collections below only look at this job's objects (fast)
+    try:
+        # the reference is a FORCED regime (collector off), so the digests compared across interpreters do not depend on the
+        # real allocation history; the default regime is one of the regimes compared with it
+        ref, ids, nlog = one(1)
+        diff = None
+        for r in (3, 2, 0):
+            d, ids2, nlog2 = one(r)
+            if d != ref:
+                st = next((k for k, (x, y) in enumerate(zip(d, ref)) if x != y), min(len(d), len(ref)))
+                diff = [r, st, ids[:12], ids2[:12], nlog, nlog2]
+                break
+    finally:
+        gc.unfreeze()
+    return {"digests": ref, "gc_diff": diff, "global_changed": _global_state() != g0}
+
+
 def run_batch_graph_job(job):
     """batch_run with number_processes=1 over a parameter that holds ONE graph object (every run of the sweep gets the very
     same object) against the same runs on pristine graphs: the collected model data must be equal run by run"""
@@ -1022,6 +1182,8 @@ def run_job(job, detail_step=None, share=False):
         return run_script_job(job, detail_step, share)
     if k == "batch_graph":
         return run_batch_graph_job(job)
+    if k == "usercode":
+        return run_usercode_job(job)
     if k == "reset":
         return run_reset_job(job)
     if k == "batch":
@@ -1084,6 +1246,8 @@ def _job_name(job):
         return job["model"]
     if job["kind"] == "batch_graph":
         return "batch_run/shared-graph"
+    if job["kind"] == "usercode":
+        return "usercode/" + job["variant"]
     if job["kind"] == "script":
         return "api-script"
     return "Model"
@@ -1262,6 +1426,19 @@ def run_env_case(case):
             if rr["rng_explicit"] is False and form in ("seed", "rng-int"):
                 failures.append({"key": f"C01/Model.reset_rng/explicit-seed-does-not-replay/{form}", "op": i,
                                  "what": f"Model({form}={job['seed']}): reset_rng({job['seed']}) does not replay the first {job['n']} draws of model.rng"})
+        elif job["kind"] == "usercode":
+            obs[i] = list(rr["digests"])
+            if rr["gc_diff"]:
+                r_, st, ids1, ids2, n1, n2 = rr["gc_diff"]
+                failures.append({"key": f"C01/{name}/depends-on-gc-timing", "op": i,
+                                 "what": f"the same seeded model (user-code variant '{job['variant']}', seed {job['seed']}) run twice in one process gives "
+                                         f"different trajectories depending on when the garbage collector runs: regime '{GC_REGIMES[1]}' vs '{GC_REGIMES[r_]}' first "
+                                         f"differ at step {st}; final model.agents {ids1}... vs {ids2}..., activation log lengths {n1} vs {n2}"})
+            if any(r["res"]["digests"] != rr["digests"] for _, r, _, _ in rs):
+                failures.append({"key": f"C01/{name}/trajectory-differs", "op": i,
+                                 "what": f"user-code variant '{job['variant']}' (seed {job['seed']}): per-step digests differ between interpreters / hash seeds"})
+            if rr["global_changed"]:
+                failures.append({"key": f"C01/{name}/global-generator-touched", "op": i, "what": "the process-global generators changed"})
         elif job["kind"] == "batch_graph":
             obs[i] = [rr["n"], len(rr["bad"])]
             if rr["bad"]:
@@ -2261,7 +2438,9 @@ def gen_cases(rng, tier):
                           for f in ("seed", "rng-int", "rng-seq", "rng-gen", "rng-list", "seed-float", "seed-str", "seed-big",
                                     "seed-bool", "rng-npint", "rng-big", "rng-array")]
                          + [{"kind": "batch_graph", "grid": g, "seeds": [rng.randrange(1000), rng.randrange(1000)], "iterations": 2, "steps": 4}
-                            for g in ("NetworkGrid", "Network")]})
+                            for g in ("NetworkGrid", "Network")]
+                         + [{"kind": "usercode", "variant": v, "seed": rng.randrange(1000), "steps": 60 if not thorough else 200}
+                            for v in USERCODE_VARIANTS for _ in range(1 if not thorough else 3)]})
     # batch_run in spawn workers
     bm = ["Schelling", "VirusOnNetwork"] if not thorough else ["Schelling", "VirusOnNetwork", "BoltzmannWealth", "WolfSheep"]
     for name in bm:
@@ -2391,7 +2570,7 @@ RULE = ("model-tied 'world' histories = one mesa.Model(seed) with <= 7 agents of
         "followed by more steps, nearly full capacity-1 grids relocated under both empty-cell strategies, measured fresh and again after a "
         "prior model that was given the very same graph / PropertyLayer / list / dict objects plus an allocation churn; re-seeding replays "
         "through 11 collections derived before the reset for all 12 seed forms; the seed+rng ValueError boundary; batch_run with 1/2(/3) "
-        "spawn workers and batch_run(number_processes=1) over one shared graph against pristine graphs; a SCALE stream (radius 9-13 neighbourhood walks on 20x20 Moore and 30x30 hex spaces, 1100 agents, 260 steps, 40 models in the process, a 1030-agent model-tied world; larger in thorough).  non-trivial = a world history "
+        "spawn workers and batch_run(number_processes=1) over one shared graph against pristine graphs; a USER-CODE stream, implementation + oracle only (agents in reference cycles whose constructors / steps raise and are caught, agents that create agents or remove themselves / others during do / shuffle_do / map / GroupBy.do activations, value-based __eq__ / __hash__, overridden register / deregister / remove hooks, a docstring-only subclass), each seeded model run under forced collector regimes (collector off, gc.collect() before every model step, inside every agent step, default) that must agree; a SCALE stream (radius 9-13 neighbourhood walks on 20x20 Moore and 30x30 hex spaces, 1100 agents, 260 steps, 40 models in the process, a 1030-agent model-tied world; larger in thorough).  non-trivial = a world history "
         "with >= 2 operations and a non-error observation, or an env history with a multi-step digest; distinct = by SHA1 of the history")
 TRUSTED_BASE = [
     "Coq 8.16.1 kernel (coqc); vm_compute for finite facts about regenerated tables and for evaluating the model in the correspondence",
@@ -2417,6 +2596,10 @@ ASSUMPTIONS = [
     "positions inside continuous spaces and Voronoi geometry are not in the Gallina model (cells and connections are data read from the "
     "running space); float at_most fractions are exercised by the API scripts only; digests compare floats bit-exactly via repr",
     "class-level data of example models is reported as a diagnosis hint only; a verdict needs a differing trajectory / collected data",
+    "KNOWN FINDING C01/usercode/remove-other-in-activation/depends-on-gc-timing: activations call every agent that is still alive, not every "
+    "agent that is still a member, so an agent removed earlier in the same activation but kept alive by a reference cycle is called or not "
+    "depending on when the cyclic collector runs; not small and safe to repair (C04's statement allows calling removed-but-referenced agents); "
+    "the Gallina model has no notion of liveness (its ShuffleDo activates the members of a derivation, without churn)",
     "defects found and repaired by this property: VirusOnNetwork graph without seed=, ConwaysGameOfLife grid without random=, "
     "Model(rng=int)._seed not recorded (fixes/C01-1..3, committed in /repo); _Grid.agents dropping agents whose truth value is False "
     "(fixes/C01-4, found in round 5)",
